@@ -43,7 +43,8 @@ def install(save):
         # evaluated it eagerly, before its siblings (mechanism of finding D8)
         below = st[-2] if len(st) >= 2 else None
         if below == "E":
-            ctx.data.setdefault("flags", set()).add("boolop-hoisted-out-of-expression")
+            # evidence only: the mechanism flag of the known finding is read off
+            # the source (progbase.boolop_hoisting_prone), not off this stack
             ctx.hit("M-a2s.boolop_hoisted")
         ctx.hit("M-a2s.handle_bool_op")
         st.append("B")
